@@ -566,6 +566,23 @@ theorem C14_ble_gen_tie (code : Nat) (b : Bytes) :
     simp only [l2]
 
 
+/-- the CoAP accessory database (`Pdu09Characteristic` in `controller/coap/structs.py`) decodes range and step by the
+    same rows - so the same theorem holds for metadata arriving over CoAP/Thread -/
+theorem C14_coap_gen_tie (code : Nat) (b : Bytes) :
+    BleMetaGen.rangeByTable Gen.BleMeta.coapRangeRows code b = minMax code b ∧
+    BleMetaGen.stepByTable Gen.BleMeta.coapUnpackRows code b = minStep code b := by
+  have h1 : Gen.BleMeta.coapRangeRows = Gen.BleMeta.rangeRows := by decide
+  have h2 : Gen.BleMeta.coapUnpackRows = Gen.BleMeta.unpackRows := by decide
+  rw [h1, h2]
+  exact C14_ble_gen_tie code b
+
+/-- what is written is read back: per format code the library packs a value with the format it unpacks it with
+    (BLE and CoAP) -/
+theorem C14_ble_pack_unpack_same_format :
+    (Gen.BleMeta.packRows.filter (fun r => r.2.1 != "")).map (fun r => (r.1, r.2.1)) =
+      ((Gen.BleMeta.unpackRows.filter (fun r => r.2.1 != "" && r.1 != 1)).map (fun r => (r.1, r.2.1))) ∧
+    Gen.BleMeta.coapPackRows = Gen.BleMeta.packRows := by decide
+
 end BleRoute
 
 end HapVerif.C14
